@@ -22,7 +22,7 @@ def des_weak(k):
 
 def expected_weak(name, k):
     """the property's own definition"""
-    if name.startswith("Aes"):
+    if name.startswith(("Aes", "Armv8Aes")):
         return not any(k[: len(k) // 2])
     if name == "Des":
         return des_weak(k)
@@ -91,7 +91,7 @@ def run(chk, tier):
             keys.append((name, b"".join(parts)))
     for e in reg:
         n, ks = e["name"], e["ks"]
-        if n.startswith("Aes"):
+        if n.startswith(("Aes", "Armv8Aes")):
             half = ks // 2
             keys.append((n, bytes(ks)))
             for bit in range(8 * ks):
